@@ -168,7 +168,9 @@ def blackbox_case(case):
 
     def cfg(d, ca):
         rl = [{'name': 'rl%d' % k, 'number': n, 'period': '%ds' % p} for k, (n, p) in enumerate(case['limits'])]
-        return S.std_config(d, ca, [{'name': 'c%d' % i, 'identifiers': S.ids(names[i])} for i in range(n_certs)],
+        nacc = case.get('n_accounts', 1)
+        return S.std_config(d, ca, [{'name': 'c%d' % i, 'identifiers': S.ids(names[i]), 'account': 'acc%d' % (i % nacc + 1)} for i in range(n_certs)],
+                            accounts=[{'name': 'acc%d' % (k + 1)} for k in range(nacc)],
                             endpoint_extra={'ca1': {'rate_limits': [x['name'] for x in rl]}}, rate_limits=rl)
 
     def stop(v):
@@ -227,6 +229,9 @@ def run(tier):
     # limit sets whose long limit is nearly, but not, implied by the short one (through the configuration, not the probe)
     for k, lim in enumerate([[(2, 2), (5, 5)], [(1, 2), (1, 3)]] if tier == 'quick' else [[(2, 2), (5, 5)], [(1, 2), (1, 3)], [(2, 3), (3, 5)], [(3, 3), (10, 10)], [(5, 5), (2, 2)]]):
         bbs.append({'i': len(bbs), 'n_certs': 2, 'limits': lim, 'storm': 0, 'cuts': False, 'polls': 1, 'workers': None, 'timeout': 150})
+    # several accounts on one limited endpoint: the limit belongs to the endpoint, whoever speaks
+    for k, (lim, nacc, nc) in enumerate([([(2, 2)], 2, 2), ([(3, 3)], 3, 3)] if tier == 'quick' else [([(2, 2)], 2, 2), ([(3, 3)], 3, 3), ([(1, 1)], 2, 4), ([(2, 1), (6, 4)], 4, 4), ([(4, 2)], 2, 3)]):
+        bbs.append({'i': len(bbs), 'n_certs': nc, 'n_accounts': nacc, 'limits': lim, 'storm': 0, 'cuts': False, 'polls': k % 2, 'workers': [None, 4, 1][k % 3], 'timeout': 150})
     jobs = [('p', c) for c in pcs] + [('b', c) for c in bbs]
     results = C.parallel(jobs, lambda j: (j[0], probe_case(j[1]) if j[0] == 'p' else blackbox_case(j[1])), workers=14)
     for part, res in results:
@@ -246,11 +251,11 @@ def run(tier):
             for k, v in (res.get('kinds') or {}).items():
                 chk.count('blackbox_kind_%s' % k, v)
             if res['arrivals']:
-                chk.distinct.add(('blackbox', tuple(c['limits']), c['n_certs'], c['storm'], c['polls'], c.get('cuts'), c.get('forget')))
+                chk.distinct.add(('blackbox', tuple(c['limits']), c['n_certs'], c['storm'], c['polls'], c.get('cuts'), c.get('forget'), c.get('n_accounts', 1)))
         for cls, what in res['problems']:
             chk.violation('C09|%s|%s' % (part, cls), what + ' [limits %s]' % (c['limits'],), res, res.get('replay_dir'))
     chk.rule = ('probe: limit sets of 1-3 limits (n in 1..20, periods 1-5 s) x arrival shapes (burst, steady, 2-8 contending callers on one endpoint '
-                'lock, burst after idle, lone requests + idle + burst against two limits of different periods, bursts against nearly-implied long limits and against 8-10 s limits) x runtime worker counts; black-box: 2-4 certificates on one limited endpoint with badNonce storms, cut connections, accounts forgotten at newOrder and polling; '
+                'lock, burst after idle, lone requests + idle + burst against two limits of different periods, bursts against nearly-implied long limits and against 8-10 s limits) x runtime worker counts; black-box: 2-4 certificates on one limited endpoint with badNonce storms, cut connections, accounts forgotten at newOrder and polling, 2-4 accounts sharing the limited endpoint; '
                 'distinct = configurations with at least one admission / arrival observed')
     chk.assumptions = ['definite verdict only from return[i+n] - call[i] < period; tighter brackets and arrival-time verdicts must reproduce on a re-run',
                        'the verification build caps the limiter poll interval at 200 ms (the admission rule is unchanged)']
